@@ -38,33 +38,14 @@ def _run(ctx, w):
         shared.frame(ctx, w, "X1", v, buf, "the cursor and all modes stay exactly as they were")
     shared.frame(ctx, w, "X1", "Dch", buf + [(cur, "col"), (R["pending_wrap"],)], "DCH may only leave the wrap-pending column")
 
+    # ---- selectors: decided semantically by X10 (handlers' decision table + interpretation of the erase primitive on
+    # symbolic screens): rows, columns, soft-wrap clearing, position and pen operands per selector.  (The earlier
+    # term-matching form of X5/X2 alarmed on behaviour-preserving restructurings of ed/el/erase and was retired.)
     erase_fn = None
-    # ---- selectors -> call of the erase primitive ---------------------------------------
-    ctx.rule("X5", "each erase selector clears exactly its documented rows and columns")
-    ctx.rule("X2", "the soft-wrap mark of the cursor row is cleared iff the erased extent reaches the end of the row")
-    for (variant, scope), ref in sorted(REF_SCOPES.items()):
-        for h in w.handler(variant):
-            m, i, arm = shared.arm_for(w, h, scope)
-            if arm is None:
-                ctx.missing_anchor("X5", "arm for %s in %s" % (scope, h))
-                continue
-            # the buffer call in that arm: locate by source line range of the arm
-            lines = {n.get("line") for n in H.walk(arm["body"]) if isinstance(n.get("line"), int)}
-            sites = [cs for cs in E.call_sites(h) if cs.local and S._impl_of(cs.callee) == S.buffer_ty and cs.line in lines
-                     and any(S.is_row_content(p) for p in cs.W)]
-            if len(sites) != 1:
-                ctx.violation("X5", "%s:%s" % (variant, scope), "expected exactly one buffer mutation in the %s arm of %s, found %d" % (scope, h, len(sites)), loc=w.fn_loc(h))
-                continue
-            cs = sites[0]
-            erase_fn = cs.callee
-            check_scope(ctx, w, S, R, h, cs, variant, scope, ref)
-    # ECH
-    for h in w.handler("Ech"):
-        sites = [cs for cs in E.call_sites(h) if cs.local and S._impl_of(cs.callee) == S.buffer_ty and any(S.is_row_content(p) for p in cs.W)]
-        for cs in sites:
-            check_scope(ctx, w, S, R, h, cs, "Ech", "n", {"cols": "col..col+min(n,cols-col)", "unwrap": "iff-end", "rows": "row"})
-    ctx.floor("X5", 7, "erase selectors")
-    ctx.floor("X2", 6, "erase selectors")
+    for h in w.handler("El"):
+        for cs in E.call_sites(h):
+            if cs.local and S._impl_of(cs.callee) == S.buffer_ty and any(S.is_row_content(p) for p in cs.W):
+                erase_fn = cs.callee
 
     # ---- DCH / ICH primitives ---------------------------------------------------------------
     ctx.rule("X2d", "deleting characters clears the row's soft-wrap mark on every path")
@@ -244,7 +225,7 @@ def pens(ctx, w, S, R):
         else:
             ok = all(t[0] == "call" and t[1] == "cell::Cell::new" and t[2][0] == ("load", ("arg1",)) and t[2][1][0] == "call" and t[2][1][1].endswith("Default>::default") for t in rts)
         ctx.check(ok, "X3", fn, "%s returns %s" % (fn, [w.tstr(fn, t) for t in rts]), loc=w.fn_loc(fn), sample={"fn": fn, "returns": [w.tstr(fn, t) for t in rts]})
-    ctx.floor("X3", 10, "pen / blank operands")
+    ctx.floor("X3", 6, "pen / blank operands")
 
 
 def dch_rule(ctx, w, S, R):
